@@ -45,6 +45,10 @@ type Bus struct {
 	// FailSend makes Publish fail for the envelopes it selects: the sender gets
 	// an error and nothing is delivered (a connection fault at send time).
 	FailSend func(from, to string, e *wire.Envelope) bool
+	// StallSendP: this share of the failing sends does not fail at once; the
+	// connection stalls, Publish returns when the sender's context ends and
+	// reports that context's error (only for contexts that have a deadline)
+	StallSendP float64
 	// Sink may consume a published envelope at the moment of its delivery, in
 	// place of the recipient's client (the harness plays a protocol role of
 	// the recipient, e.g. the receiver of a channel synchronisation reply).
@@ -191,6 +195,12 @@ func (b *Bus) Publish(ctx context.Context, e *wire.Envelope) error {
 		return err
 	}
 	if b.FailSend != nil && b.FailSend(from, to, e2) {
+		if _, has := ctx.Deadline(); has && b.StallSendP > 0 && !b.S.UnderStdMutex() && b.S.Chance("send-stall:"+key, b.StallSendP) {
+			b.S.Event(from, "send-stall", desc+" -> "+to+" [injected: the connection stalls until the sender's context ends]")
+			b.S.Count("fault.send_stalled_until_deadline", 1)
+			<-ctx.Done()
+			return ctx.Err()
+		}
 		b.S.Event(from, "send-error", desc+" -> "+to+" [injected connection fault]")
 		b.S.Count("fault.send_error", 1)
 		return errors.New("injected connection fault")
